@@ -2,6 +2,8 @@ import BertE.Lemmas.Early
 import BertE.Drv.C12
 import BertE.Drv.C01
 import BertE.Props.C07
+import BertE.Lemmas.EvalGates
+import BertE.Drv.Eval
 /-
 C12 — held-back, finished and foreign pull requests are left alone.
 
@@ -601,5 +603,79 @@ example :
     s2.queue = [] ∧ ((run s2 (tr.take 2)).queue.map (·.pr)) = [2] ∧ (run s2 tr).queue = [] := by decide
 
 end Examples
+
+end BertE.C12
+
+
+/-! ### End to end: holds inside the composed evaluation (`Model/Eval.lean`)
+
+The input of the pre-clone model is read off the host and the repository (`Eval.earlyInput`): status, names and
+comments of THE pull request on the host, statuses of the pull requests its `after_pull_request` options name,
+existence of its destination in the repository. -/
+namespace BertE.C12
+open BertE.Early BertE.Reactor BertE.Flow BertE.Eval
+
+/-- **C12, end to end.** A held, finished or foreign pull request: the composed evaluation ends at the early
+    stage with the EMPTY plan — no integration branch, no queue entry, no merge — whatever its approvals, its
+    build statuses, its Jira issue. -/
+theorem C12_e2e_held {c : Eval.Cfg} (hT : TblOK c.early) {h : Host} {s : Sys} {id : Nat} {p : Eval.Pr}
+    (orc : List Bool) (sel : List Nat) (hp : h.pr id = some p) (hh : Held c.early (earlyInput c h s p)) :
+    (evalPr c h s id orc sel).stage = .early ∧ (evalPr c h s id orc sel).plan.ops = [] ∧
+    applyOps (evalPr c h s id orc sel).plan.g noRej s.remote (evalPr c h s id orc sel).plan.ops = s.remote := by
+  obtain ⟨h1, h2, _, _⟩ := evalPr_stopped orc sel hp (C12_held_stops hT _ hh)
+  rw [h2]
+  exact ⟨h1, rfl, rfl⟩
+
+/-- **C12, end to end: no comment at all** on a pull request Bert-E does not handle (finished, or foreign source
+    or destination): `notify_user` is not called once during the evaluation. -/
+theorem C12_e2e_foreign_silent {c : Eval.Cfg} (hT : TblOK c.early) {h : Host} {s : Sys} {id : Nat} {p : Eval.Pr}
+    (orc : List Bool) (sel : List Nat) (hp : h.pr id = some p) (hh : NotHandled c.early (earlyInput c h s p)) :
+    (evalPr c h s id orc sel).notified = [] ∧ (evalPr c h s id orc sel).plan.ops = [] := by
+  have hheld : Held c.early (earlyInput c h s p) := by
+    rcases hh with h1 | h1 | h1
+    · exact Or.inr (Or.inr (Or.inl h1))
+    · exact Or.inr (Or.inr (Or.inr (Or.inl h1)))
+    · exact Or.inr (Or.inr (Or.inr (Or.inr h1)))
+  obtain ⟨_, h2, _, h4⟩ := evalPr_stopped orc sel hp (C12_held_stops hT _ hheld)
+  rw [h4, h2]
+  exact ⟨C12_foreign_silent hT _ hh, rfl⟩
+
+/-! Non-vacuity on the tables of the current source: a fully approved, green pull request with a `wait` comment;
+    a pull request from a `user/` branch. -/
+
+def e2eCfg : Eval.Cfg :=
+  { reg := BertE.Drv.C07.genRegistry.withCmdLine ["bypass_jira_check"]
+    env := ⟨["admin"], "", "robot", []⟩
+    authorOptions := []
+    early := BertE.Drv.C12.genTbl
+    build := BertE.Drv.C06.genTbl
+    buildKey := "pre-merge"
+    approvals := { requiredPeers := 0, requiredLeaders := 0, needAuthor := false, projectLeaders := ["admin"],
+                   robot := "robot", bypassAuthorS := false, bypassAuthorA := false, bypassPeerS := false,
+                   bypassPeerA := false, bypassLeaderS := false, bypassLeaderA := false, approve := false,
+                   unanimity := false }
+    jira := ⟨false, false, [], [], "", "", [], false⟩
+    ticketless := BertE.Drv.Eval.ticketlessOf
+    maxCommitDiff := 0
+    createBranches := true
+    createPrs := false }
+
+def e2eSys : Sys :=
+  (step (BertE.Drv.C01.initSys true false [.dev 4 (some 3)]) (.extSet "feature/TEST-1" [1] false)).1
+
+def e2ePr (src : String) (cs : List Comment) : Eval.Pr :=
+  { id := 1, author := "contrib", src := src, dst := "development/4.3", status := "OPEN",
+    comments := cs, approvals := ["contrib", "peer1"], changeRequests := [], participants := ["contrib", "peer1"] }
+
+def e2eHost (src : String) (cs : List Comment) : Host := ⟨[e2ePr src cs], [(2, .successful)], []⟩
+
+example : Held e2eCfg.early (earlyInput e2eCfg (e2eHost "feature/TEST-1" [⟨"contrib", "@robot wait".toList⟩]) e2eSys
+      (e2ePr "feature/TEST-1" [⟨"contrib", "@robot wait".toList⟩])) ∧
+    (evalPr e2eCfg (e2eHost "feature/TEST-1" [⟨"contrib", "@robot wait".toList⟩]) e2eSys 1 [] []).plan.ops = [] ∧
+    (evalPr e2eCfg (e2eHost "feature/TEST-1" []) e2eSys 1 [] []).outcome = "Queued" := by decide +kernel
+
+example : NotHandled e2eCfg.early (earlyInput e2eCfg (e2eHost "user/x" []) e2eSys (e2ePr "user/x" [])) ∧
+    (evalPr e2eCfg (e2eHost "user/x" []) e2eSys 1 [] []).notified = [] ∧
+    (evalPr e2eCfg (e2eHost "user/x" []) e2eSys 1 [] []).outcome = "NotMyJob" := by decide +kernel
 
 end BertE.C12
